@@ -19,7 +19,8 @@ use crate::{EXIT_CONFIG_ERROR, EXIT_SUCCESS};
 use super::check_args::{apply_cli_overrides, validate_and_resolve_paths};
 use super::check_baseline_ops::{
     EvaluatedPaths, apply_baseline_comparison, baseline_key, handle_baseline_ratchet,
-    load_baseline, load_baseline_optional, update_baseline_from_results,
+    is_structure_violation_result, load_baseline, load_baseline_optional,
+    update_baseline_from_results,
 };
 use super::check_exit::determine_exit_code;
 use super::check_output::{
@@ -343,9 +344,13 @@ pub fn run_check_with_context(opts: &CheckOptions<'_>) -> crate::Result<i32> {
     }
 
     // 7.0.1 Check baseline ratchet (violations should only decrease)
+    // A structure result reported at the path of a file (missing sibling, naming, allow/deny
+    // lists) says nothing about that file's line count: under --diff/--staged or after a
+    // fail-fast short-circuit the file may not have been content-checked at all.
     let evaluated = EvaluatedPaths {
         paths: results
             .iter()
+            .filter(|r| !is_structure_violation_result(r))
             .map(CheckResult::path)
             .chain(checked_dirs.into_iter().map(PathBuf::as_path))
             .filter_map(baseline_key)
